@@ -8,11 +8,15 @@
 package main
 
 import (
+	"flag"
 	"fmt"
 	"os"
+	"runtime/debug"
 	"sort"
 
+	"github.com/nginx/kubernetes-ingress/internal/configs"
 	"github.com/nginx/kubernetes-ingress/internal/k8s"
+	"github.com/nginx/kubernetes-ingress/internal/nginx"
 	"github.com/nginx/kubernetes-ingress/internal/verifh/vh"
 	conf_v1 "github.com/nginx/kubernetes-ingress/pkg/apis/configuration/v1"
 	networking "k8s.io/api/networking/v1"
@@ -75,11 +79,22 @@ type History struct {
 	Final  *StepObs  `json:"final,omitempty"`
 }
 
+// CtlStep is what the cluster sees when the same event goes through the real controller sync
+type CtlStep struct {
+	Events []k8s.VEvent       `json:"events"`
+	Writes []k8s.VStatusWrite `json:"writes"`
+	VErr   k8s.VErr           `json:"verr"`
+	Hosts  map[string]string  `json:"hosts"`
+	LHosts map[string]string  `json:"lhosts"`
+	Res    []k8s.VRes         `json:"res"`
+}
+
 type Case struct {
 	ID        int       `json:"id"`
 	TLS       bool      `json:"tls_passthrough"`
 	CertMgr   bool      `json:"cert_manager"`
 	Histories []History `json:"histories"`
+	Ctl       []CtlStep `json:"ctl,omitempty"` // main history through LoadBalancerController.sync (with -ctl)
 	Error     string    `json:"error,omitempty"`
 }
 
@@ -785,7 +800,64 @@ func runCase(c *Case) {
 		return
 	}
 	c.Histories = append(c.Histories, er)
+	if *ctlMode {
+		if err := runCtl(c, anns); err != nil {
+			c.Error = fmt.Sprintf("controller run: %v", err)
+		}
+	}
 }
+
+func repoDir() string {
+	if d := os.Getenv("VERIF_REPO"); d != "" {
+		return d
+	}
+	return "/repo"
+}
+
+// runCtl sends the main history through the real controller: informer store mutation, then lbc.sync.
+func runCtl(c *Case, anns map[string]int) (err error) {
+	defer func() {
+		if r := recover(); r != nil {
+			err = fmt.Errorf("panic: %v\n%s", r, debug.Stack())
+		}
+	}()
+	cnf, err := configs.VerifC12NewConfigurator(repoDir(), nginx.NewFakeManager("/etc/nginx"), false, false)
+	if err != nil {
+		return err
+	}
+	v := k8s.VerifCtlNew(cnf, "nginx", c.TLS, c.CertMgr, anns)
+	c.Ctl = nil
+	for _, ev := range c.Histories[0].Events {
+		s := ev.Spec
+		key := s.NS + "/" + s.Name
+		var obj interface{}
+		if ev.Op == "upsert" {
+			switch s.Kind {
+			case "ing":
+				obj = buildIngress(s)
+			case "vs":
+				obj = buildVS(s)
+			case "vsr":
+				obj = buildVSR(s)
+			case "ts":
+				obj = buildTS(s)
+			case "gc":
+				obj = buildGC(s)
+			}
+		}
+		if s.Kind == "gc" {
+			key = k8s.VerifGCKey
+		}
+		evs, writes, verr, err := v.Apply(s.Kind, key, obj)
+		if err != nil {
+			return err
+		}
+		c.Ctl = append(c.Ctl, CtlStep{Events: evs, Writes: writes, VErr: verr, Hosts: v.Arb.Hosts(), LHosts: v.Arb.LHosts(), Res: v.Arb.Resources()})
+	}
+	return nil
+}
+
+var ctlMode = flag.Bool("ctl", false, "also run the main history through the real LoadBalancerController.sync")
 
 func main() {
 	a := vh.ParseArgs()
